@@ -291,6 +291,7 @@ func handleMethod(svr interface{}, serviceName string, desc *grpc.MethodDesc, un
 		toHeaders(sts.GetHeaders(), w.Header(), "")
 		toHeaders(sts.GetTrailers(), w.Header(), "X-GRPC-Trailer-")
 		if err != nil {
+			err = internal.HandlerError(err)
 			st, _ := status.FromError(err)
 			if st.Code() == codes.OK {
 				// preserve all error details, but rewrite the code since we don't want
@@ -388,6 +389,7 @@ func handleStream(svr interface{}, serviceName string, desc *grpc.StreamDesc, st
 			Metadata: asTrailerProto(metadata.Join(str.tr...)),
 		}
 		if err != nil {
+			err = internal.HandlerError(err)
 			st, _ := status.FromError(err)
 			if st.Code() == codes.OK {
 				// preserve all error details, but rewrite the code since we don't want
